@@ -103,10 +103,13 @@ func (dmx *Demuxer) NextPacket() (p *Packet, err error) {
 
 	// Create packet buffer if not exists
 	if dmx.packetBuffer == nil {
-		if dmx.packetBuffer, err = newPacketBuffer(dmx.r, dmx.optPacketSize, dmx.optPacketSkipper); err != nil {
+		// Only keep a packet buffer that was created successfully, otherwise the next call has to try again
+		var pb *packetBuffer
+		if pb, err = newPacketBuffer(dmx.r, dmx.optPacketSize, dmx.optPacketSkipper); err != nil {
 			err = fmt.Errorf("astits: creating packet buffer failed: %w", err)
 			return
 		}
+		dmx.packetBuffer = pb
 	}
 
 	// Fetch next packet from buffer
